@@ -127,6 +127,16 @@ pub fn run(ctx: &Ctx) -> i32 {
             Ok(v) => viol(ctx, "alpha(a)", a, 0, 0, format!("{v:#04x}"), want),
             Err(m) => viol(ctx, "alpha panic", a, 0, 0, m, want),
         }
+        // beyond the table's period: alpha(i) for i >= 256 may refuse (the crate asserts i < 256) but must
+        // never return anything other than 2^i
+        for i in [256 + a, 510 + a, 766 + a, 1021 + 4 * a, 65536 + 255 * a] {
+            evals += 1;
+            if let Ok(v) = guarded(|| Octet::alpha(i).byte()) {
+                if v != gf.exp[i % 255] {
+                    viol(ctx, "alpha(i>=256)", i, 0, 0, format!("{v:#04x}"), gf.exp[i % 255]);
+                }
+            }
+        }
         ctx.nontrivial_many((0..256u64).map(|b| ((a as u64) << 8) | b));
     }
     if !pairs_only {
@@ -167,7 +177,7 @@ pub fn run(ctx: &Ctx) -> i32 {
     ctx.sample(|| J::s("a=0xff b=0xff: div -> 0x01, fma(0x5a; a, b) = 0x5a ^ mul(a,b)"));
     ctx.floor("operand_pairs_enumerated", ctx.distinct_count() as u64, if stride > 1 { 256 } else { 65536 });
     ctx.finish(
-        "complete enumeration: all 256x256 operand pairs for mul (by value, by reference, OCTET_MUL), div, add, sub, +=, fma (9 accumulators), both halves of the low/high nibble tables, alpha(i) for i in 0..=255, and all 256^3 triples for associativity, distributivity and fma = add-after-mul through the crate's own operators; oracle = field built from x^8+x^4+x^3+x^2+1 by shift-and-xor. distinct_nontrivial = distinct operand pairs",
+        "complete enumeration: all 256x256 operand pairs for mul (by value, by reference, OCTET_MUL), div, add, sub, +=, fma (9 accumulators), both halves of the low/high nibble tables, alpha(i) for i in 0..=255 (and 1280 exponents beyond: refusing is accepted, a value other than 2^i is not), and all 256^3 triples for associativity, distributivity and fma = add-after-mul through the crate's own operators; oracle = field built from x^8+x^4+x^3+x^2+1 by shift-and-xor. distinct_nontrivial = distinct operand pairs",
         &["the reference field is built from the polynomial 0x11D and generator 2 (RFC 6330 5.7) in the harness"],
         vec![("exhaustive", J::B(stride == 1 && !pairs_only))],
     )
